@@ -214,6 +214,10 @@ def run(ctx):
         pa = lambda p: cmap_of(np.asarray(p.gs), np.asarray(p.ps), np.asarray(p.cs))
         ta = lambda p: cmap_of(p.gs.tolist(), p.ps.tolist(), p.cs.tolist())
         probe('PauliPolynomial.__matmul__', lambda: pa(impl.poly(terms) @ impl.poly(t2)), lambda: ta(tpoly(terms) @ tpoly(t2)), (terms, t2), cmp=close_maps)
+        # polynomials without terms (complete cancellation) keep their number of qubits through products and sums
+        probe('PauliPolynomial.__matmul__(no terms)',
+              lambda: (lambda z_: [tuple(np.asarray(x_.gs).shape) for x_ in (z_, z_ @ impl.poly(t2), impl.poly(t2) @ z_, (z_ @ impl.poly(t2)) + impl.poly(t2))])(impl.poly(terms) - impl.poly(terms)),
+              lambda: (lambda z_: [tuple(x_.gs.shape) for x_ in (z_, z_ @ tpoly(t2), tpoly(t2) @ z_, (z_ @ tpoly(t2)) + tpoly(t2))])(tpoly(terms) - tpoly(terms)), (terms, t2))
         probe('PauliPolynomial.__add__', lambda: pa(impl.poly(terms) + impl.poly(t2)), lambda: ta(tpoly(terms) + tpoly(t2)), (terms, t2), cmp=close_maps)
         probe('PauliPolynomial.__sub__', lambda: pa(impl.poly(terms) - impl.poly(t2)), lambda: ta(tpoly(terms) - tpoly(t2)), (terms, t2), cmp=close_maps)
         probe('PauliPolynomial.__rmul__', lambda: pa((0.5 - 1j) * impl.poly(terms)), lambda: ta((0.5 - 1j) * tpoly(terms)), terms, cmp=close_maps)
